@@ -1,7 +1,7 @@
 #!/bin/bash
 # confirm a sub-agent mutation in its scratch worktree: usage confirm_mut.sh C08 1
 # checks: patch applies to clean HEAD; suite 229/0 with patch; demo fails with patch; demo passes without
-id=$1; k=$2; wt=/tmp/wt-$id; out=$wt/_out/mut$k
+id=$1; k=$2; wt=${WT_PREFIX:-/tmp/wt-}$id; out=$wt/_out/mut$k
 cd $wt || exit 9
 git checkout -q -- . 2>/dev/null
 git status --short | grep -v '^??' && { echo "worktree dirty"; exit 9; }
